@@ -509,9 +509,30 @@ def large_dataset(rng, n, m=None, style=None, names=None):
     base = list(names) if names is not None else list(range(n))
     if names is None and rng.random() < 0.5:
         rng.shuffle(base)
-    style = style or rng.choice(["near", "near", "near", "identical", "groups", "random", "near-incomplete", "near-incomplete"])
+    style = style or rng.choice(["near", "near", "near", "identical", "groups", "random", "near-incomplete", "near-incomplete",
+                                 "mostly-tied-pairs"])
     m = m or rng.choice([1, 2, 3, 3, 4, 5])
     ds = []
+    if style == "mostly-tied-pairs":
+        # one order; a third of the consecutive pairs are tied in every ranking but one or two, where they are ordered: mean
+        # positions that differ by 1/m or 2/m on values of the order of n (relative differences far below 1e-5 when n * m
+        # is large, and real)
+        pairs = {i for i in range(0, n - 1, 2) if rng.random() < 0.33}
+        untie = {i: set(rng.sample(range(m), min(m, rng.choice([1, 1, 2])))) for i in pairs}
+        for j in range(m):
+            r, i = [], 0
+            while i < n:
+                if i in pairs and j not in untie[i]:
+                    r.append([base[i], base[i + 1]])
+                    i += 2
+                elif i in pairs:
+                    r.extend([[base[i]], [base[i + 1]]] if rng.random() < 0.7 else [[base[i + 1]], [base[i]]])
+                    i += 2
+                else:
+                    r.append([base[i]])
+                    i += 1
+            ds.append(r)
+        return ds, base
     for _ in range(m):
         if style == "random":
             r = list(base)
